@@ -27,7 +27,8 @@ def jobs():
             trusted=['model of the character source (fc_read_func in the harness): delivers up to the requested count'],
             clauses=['no unit delivered by the source is dropped when the input starts with CR', 'CR / CR LF at the very start read as one LF', 'error callback arguments valid']),
         Job('fold_fill_bounded', 'parser_fold_h.c', entry='harness_fold_fill', tus=['parser.c'], functions=['get_more_chars'], plain=True, no_loop_contracts=True,
-            defines={'MAXFILL': 4}, thorough_defines={'MAXFILL': 7}, unwind=12, flags=['--object-bits', '10'],
+            defines={'MAXFILL': 4}, thorough_defines={'MAXFILL': 7}, unwind=12, flags=['--object-bits', '10', '--sat-solver', 'minisat2'],   # cbmc reports ERROR statuses for this job with cadical
+           
             bounded='one buffer fill of at most MAXFILL (4 quick / 7 thorough) code units with arbitrary content (every arrangement of up to three CR LF pairs, lone CRs, '
                     'pair at the start / end, CR last), 0-2 units already buffered; all loops unwound completely',
             reach=['pair-folded', 'no-pair'], min_obligations=30, timeout=1200, mem_gb=16,
